@@ -585,47 +585,55 @@ theorem emit_special_forms : Generated.SQEmit.callBySymbolCases = specialForms :
 /-- Every place where generator.go creates a generator or writes one of the context fields
 Tail / scopes / funcname, in source order — what `genBegin`, `genFun`, `genShort`, `genCond`,
 `genLet`, `genFor`, `genNewScope` and the ordinary-call arm of `genC` were written against
-(e.g. a cond predicate is compiled after `Reset()` with nothing copied; the four
-sub-generators of a loop get Tail false, scopes, funcname). Other files only create generators. -/
+(e.g. a cond test is compiled after `Reset()` with the scopes copied again and Tail false; the four
+sub-generators of a loop get Tail false, scopes, funcname; let initialisers, array elements, the
+results of a multi-value return and — in the `syntaxQuote` case of GenerateCallBySymbol — the
+unquoted expressions of a template are compiled with Tail cleared and restored). As of /repo
+0d48297. Other files only create generators. -/
 theorem emit_ctx_writes : Generated.SQCtx.ctxWrites =
-    ["EvalCallExpression|new:gen=NewGenerator", "LoadExpressions|new:gen=NewGenerator", "Force|new:gen=NewGenerator",
-     "FuncBuilder|new:gen=NewGenerator", "EvalFunction|new:gen=NewGenerator",
-     "NewGenerator|set:gen.Tail=false", "NewGenerator|set:gen.scopes=0", "NewSubGenerator|new:subgen=NewGenerator",
-     "GenerateBegin|set:gen.Tail=false", "GenerateBegin|set:gen.Tail=oldtail",
-     "buildSexpFun|new:gen=NewGenerator", "buildSexpFun|set:gen.Tail=true",
-     "buildSexpFun|set:gen.funcname=env.GenSymbol(\"__anon\").name", "buildSexpFun|set:gen.funcname=name",
-     "buildSexpFun|set:gen.funcname=\"\"",
-     "GenerateDef|set:gen.Tail=false",
-     "GenerateShortCircuit|new:subgen=gen.NewSubGenerator", "GenerateShortCircuit|set:subgen.scopes=gen.scopes",
-     "GenerateShortCircuit|set:subgen.Tail=gen.Tail", "GenerateShortCircuit|set:subgen.funcname=gen.funcname",
-     "GenerateShortCircuit|use:subgen.Generate",
-     "GenerateShortCircuit|new:subgen=gen.NewSubGenerator", "GenerateShortCircuit|set:subgen.scopes=gen.scopes",
+    ["EvalCallExpression|new:gen=NewGenerator", "LoadExpressions|new:gen=NewGenerator",
+     "Force|new:gen=NewGenerator", "FuncBuilder|new:gen=NewGenerator", "EvalFunction|new:gen=NewGenerator",
+     "NewGenerator|set:gen.Tail=false", "NewGenerator|set:gen.scopes=0",
+     "NewSubGenerator|new:subgen=NewGenerator", "GenerateBegin|set:gen.Tail=false",
+     "GenerateBegin|set:gen.Tail=oldtail", "buildSexpFun|new:gen=NewGenerator",
+     "buildSexpFun|set:gen.Tail=true", "buildSexpFun|set:gen.funcname=env.GenSymbol(\"__anon\").name",
+     "buildSexpFun|set:gen.funcname=name", "buildSexpFun|set:gen.funcname=\"\"",
+     "GenerateDef|set:gen.Tail=false", "GenerateShortCircuit|new:subgen=gen.NewSubGenerator",
+     "GenerateShortCircuit|set:subgen.scopes=gen.scopes", "GenerateShortCircuit|set:subgen.Tail=gen.Tail",
+     "GenerateShortCircuit|set:subgen.funcname=gen.funcname", "GenerateShortCircuit|use:subgen.Generate",
+     "GenerateShortCircuit|new:subgen=gen.NewSubGenerator",
+     "GenerateShortCircuit|set:subgen.scopes=gen.scopes",
      "GenerateShortCircuit|set:subgen.funcname=gen.funcname", "GenerateShortCircuit|use:subgen.Generate",
      "GenerateCond|new:subgen=gen.NewSubGenerator", "GenerateCond|set:subgen.Tail=gen.Tail",
      "GenerateCond|set:subgen.scopes=gen.scopes", "GenerateCond|set:subgen.funcname=gen.funcname",
-     "GenerateCond|use:subgen.Generate", "GenerateCond|reset:subgen", "GenerateCond|use:subgen.Generate",
-     "GenerateCond|reset:subgen", "GenerateCond|set:subgen.Tail=gen.Tail", "GenerateCond|set:subgen.scopes=gen.scopes",
-     "GenerateCond|set:subgen.funcname=gen.funcname", "GenerateCond|use:subgen.Generate", "GenerateCond|reset:subgen",
-     "GenerateLet|++:gen.scopes", "GenerateLet|--:gen.scopes",
+     "GenerateCond|use:subgen.Generate", "GenerateCond|reset:subgen",
+     "GenerateCond|set:subgen.scopes=gen.scopes", "GenerateCond|use:subgen.Generate",
+     "GenerateCond|reset:subgen", "GenerateCond|set:subgen.Tail=gen.Tail",
+     "GenerateCond|set:subgen.scopes=gen.scopes", "GenerateCond|set:subgen.funcname=gen.funcname",
+     "GenerateCond|use:subgen.Generate", "GenerateCond|reset:subgen", "GenerateLet|++:gen.scopes",
+     "GenerateLet|set:gen.Tail=false", "GenerateLet|set:gen.Tail=oldtail", "GenerateLet|--:gen.scopes",
+     "GenerateAssert|set:gen.Tail=false", "GenerateAssert|set:gen.Tail=oldtail",
      "GenerateCallBySymbol|set:gen.Tail=false", "GenerateCallBySymbol|set:gen.Tail=oldtail",
-     "Reset|set:gen.Tail=false", "Reset|set:gen.scopes=0",
-     "GenerateForLoop|++:gen.scopes",
+     "GenerateCallBySymbol|set:gen.Tail=false", "GenerateCallBySymbol|set:gen.Tail=oldtail",
+     "GenerateArray|set:gen.Tail=false", "GenerateArray|set:gen.Tail=oldtail", "Reset|set:gen.Tail=false",
+     "Reset|set:gen.scopes=0", "GenerateForLoop|++:gen.scopes",
      "GenerateForLoop|new:subgenBody=gen.NewSubGenerator", "GenerateForLoop|set:subgenBody.Tail=false",
-     "GenerateForLoop|set:subgenBody.scopes=gen.scopes", "GenerateForLoop|set:subgenBody.funcname=gen.funcname",
-     "GenerateForLoop|use:subgenBody.GenerateBegin",
+     "GenerateForLoop|set:subgenBody.scopes=gen.scopes",
+     "GenerateForLoop|set:subgenBody.funcname=gen.funcname", "GenerateForLoop|use:subgenBody.GenerateBegin",
      "GenerateForLoop|new:subgenInit=gen.NewSubGenerator", "GenerateForLoop|set:subgenInit.Tail=false",
-     "GenerateForLoop|set:subgenInit.scopes=gen.scopes", "GenerateForLoop|set:subgenInit.funcname=gen.funcname",
-     "GenerateForLoop|use:subgenInit.Generate",
+     "GenerateForLoop|set:subgenInit.scopes=gen.scopes",
+     "GenerateForLoop|set:subgenInit.funcname=gen.funcname", "GenerateForLoop|use:subgenInit.Generate",
      "GenerateForLoop|new:subgenT=gen.NewSubGenerator", "GenerateForLoop|set:subgenT.Tail=false",
      "GenerateForLoop|set:subgenT.scopes=gen.scopes", "GenerateForLoop|set:subgenT.funcname=gen.funcname",
-     "GenerateForLoop|use:subgenT.Generate",
-     "GenerateForLoop|new:subgenIncr=gen.NewSubGenerator", "GenerateForLoop|set:subgenIncr.Tail=false",
-     "GenerateForLoop|set:subgenIncr.scopes=gen.scopes", "GenerateForLoop|set:subgenIncr.funcname=gen.funcname",
-     "GenerateForLoop|use:subgenIncr.Generate", "GenerateForLoop|--:gen.scopes",
-     "GenerateMultiDef|set:gen.Tail=false",
-     "GenerateNewScope|set:gen.Tail=false", "GenerateNewScope|++:gen.scopes", "GenerateNewScope|set:gen.Tail=oldtail",
-     "GenerateNewScope|--:gen.scopes",
-     "GeneratePackage|set:gen.Tail=false", "GeneratePackage|set:gen.Tail=oldtail",
+     "GenerateForLoop|use:subgenT.Generate", "GenerateForLoop|new:subgenIncr=gen.NewSubGenerator",
+     "GenerateForLoop|set:subgenIncr.Tail=false", "GenerateForLoop|set:subgenIncr.scopes=gen.scopes",
+     "GenerateForLoop|set:subgenIncr.funcname=gen.funcname", "GenerateForLoop|use:subgenIncr.Generate",
+     "GenerateForLoop|--:gen.scopes", "GenerateMultiDef|set:gen.Tail=false",
+     "GenerateNewScope|set:gen.Tail=false", "GenerateNewScope|++:gen.scopes",
+     "GenerateNewScope|set:gen.Tail=oldtail", "GenerateNewScope|--:gen.scopes",
+     "GeneratePackage|set:gen.Tail=false", "GeneratePackage|++:gen.scopes",
+     "GeneratePackage|set:gen.Tail=oldtail", "GeneratePackage|--:gen.scopes",
+     "GenerateReturn|set:gen.Tail=false", "GenerateReturn|set:gen.Tail=oldtail",
      "SourceExpressions|new:gen=NewGenerator"] := by decide
 
 /-! ### the pinned tree (before fixes/C15-02, C15-03 and the error-propagation commit) -/
